@@ -16,6 +16,12 @@ observed: paired scenarios through the real sync and asyncio driver stacks over 
           missing secondary password against devices that re-prompt, refuse or hang; refused / ignored / unanswered
           de-escalation; failing on_open / on_close hooks; timeout_ops armed so that silence ends in the real operation
           timeout) compares exception type + message class + explicit cause chain, bytes written and the state afterwards.
+          Round 7 families: send_and_read / channel.send_input_and_read with expected_outputs drawn from plain text,
+          text with regex metacharacters and real patterns against streaming answers (c06_pairs.gen_and_read_scenario);
+          escape sequences in the device's stream x the chunking policy "esccut" that cuts inside every sequence
+          (c06_pairs.EscChunker / gen_ansi_scenario); two-object histories per platform driver — a default privilege level
+          of a first object edited in place, then a second object constructed and used — compared between the stacks AND
+          against the isolation expectation (c06_pairs._run_sync_one / _isolation).
           A broken twin-diff obligation for function F makes focus_search run the scenario
           families that exercise F (c06_pairs.FN_FAMILY) with extra seeds."""
 import asyncio
@@ -422,6 +428,42 @@ def _tally(dist, sc, a):
             kw = op[2] if len(op) > 2 else {}
             it["with_complete_patterns"] += 1 if kw.get("interaction_complete_patterns") else 0
             it["outcomes"][o[0] if o[0] != "exc" else o[1]] = it["outcomes"].get(o[0] if o[0] != "exc" else o[1], 0) + 1
+    if sc.get("family") == "and_read" and "expected_classes" in sc:
+        ar = dist["and_read"]
+        ar["scenarios"] += 1
+        ar["with_endless_lines"] += 1 if sc["device"].get("dialogs") else 0
+        calls = [(op, o) for op, o in zip(sc["ops"], a["ops"]) if op[0] in ("send_and_read", "channel_send_input_and_read")]
+        for (op, o), classes in zip(calls, sc["expected_classes"]):
+            ar["calls"][op[0]] = ar["calls"].get(op[0], 0) + 1
+            key = "+".join(sorted(set(classes))) or "none given"
+            ar["expected_classes"][key] = ar["expected_classes"].get(key, 0) + 1
+            oc = o[1] if o[0] == "exc" else o[0]
+            ar["outcomes"][oc] = ar["outcomes"].get(oc, 0) + 1
+            if o[0] == "ok" and op[1] in (sc["device"].get("dialogs") or {}):
+                ar["stopped_inside_an_endless_stream"] += 1
+            elif o[0] == "ok" and not bytes.fromhex(o[1][2] if op[0] == "send_and_read" else o[1][0]).rstrip().endswith((b"#", b">", b"%")):
+                ar["stopped_before_the_prompt"] += 1
+    if sc.get("family") == "ansi":
+        an = dist["ansi"]
+        an["scenarios"] += 1
+        pol = sc["policy"]
+        if pol[0] == "esccut":
+            an["cut_position"][str(pol[1])] = an["cut_position"].get(str(pol[1]), 0) + 1
+            an["chunk_behind_the_cut"][pol[2]] = an["chunk_behind_the_cut"].get(pol[2], 0) + 1
+        an["with_insertions"] += 1 if sc["device"].get("insertions") else 0
+        esc = bytes.fromhex(a["reads"]).count(b"\x1b")
+        an["esc_bytes_read_hist"][min(esc, 10)] = an["esc_bytes_read_hist"].get(min(esc, 10), 0) + 1
+        an["results_with_esc_left"] += 1 if "\\u001b" in json.dumps(a["ops"]) else 0
+    if sc.get("first"):
+        tw = dist["two_objects"]
+        tw["scenarios"] += 1
+        tw["kinds"][sc["kind"]] = tw["kinds"].get(sc["kind"], 0) + 1
+        for e in sc["first"].get("edits", []):
+            tw["edited_field"][e[1]] = tw["edited_field"].get(e[1], 0) + 1
+        tw["first_used_before_edit"] += 1 if sc["first"].get("ops_before") else 0
+        tw["first_used_after_edit"] += 1 if sc["first"].get("ops_after") else 0
+        tw["first_failed_after_edit"] += 1 if any(o[0] == "exc" for o in a["first"]["ops"]) else 0
+        tw["isolation_failures"] += 1 if a.get("isolation") else 0
     if sc.get("family") == "errors":
         er = dist["error_paths"]
         er["scenarios"] += 1
@@ -457,6 +499,12 @@ def _new_dist():
             "error_paths": {"scenarios": 0, "mode": {}, "behaviour": {}, "secondary": {}, "on_open": {}, "on_close": {},
                             "timeout_armed": {}, "failures": {}, "message_classes": {}, "with_failure": 0,
                             "reopened_after_failure": 0, "transport_closed_at_end": 0},
+            "and_read": {"scenarios": 0, "with_endless_lines": 0, "calls": {}, "expected_classes": {}, "outcomes": {},
+                         "stopped_inside_an_endless_stream": 0, "stopped_before_the_prompt": 0},
+            "ansi": {"scenarios": 0, "cut_position": {}, "chunk_behind_the_cut": {}, "with_insertions": 0, "esc_bytes_read_hist": {},
+                     "results_with_esc_left": 0},
+            "two_objects": {"scenarios": 0, "kinds": {}, "edited_field": {}, "first_used_before_edit": 0, "first_used_after_edit": 0,
+                            "first_failed_after_edit": 0, "isolation_failures": 0},
             "interactive": {"dialogues": 0, "events_hist": {}, "same_response_in_a_row": 0, "hidden_inputs": 0,
                             "with_complete_patterns": 0, "outcomes": {}, "device_skipped_a_question": 0,
                             "device_refused_an_answer": 0, "left_open": 0, "hidden_answers_typed": 0}}
@@ -481,8 +529,11 @@ def _run_pairs(rep, P, scs, dist, label, reported, limit=3):
             if reported[0] < limit:
                 reported[0] += 1
                 sc2, a2, b2, d2 = shrink_pair(P, sc, a, b, d)
-                rep.violation("sync and asyncio %s stacks differ in %s on ops %s%s" % (
-                    sc2["kind"], d2, json.dumps([o[0] for o in sc2["ops"]]), label),
+                only_iso = d2 == ["isolation"]
+                rep.violation("%s %s on ops %s%s" % (
+                    ("both %s stacks fail the isolation expectation of a two-object history:" % sc2["kind"]) if only_iso else
+                    ("sync and asyncio %s stacks differ in" % sc2["kind"]), a2["isolation"][:2] if only_iso else d2,
+                    json.dumps([o[0] for o in sc2["ops"]]), label),
                     {"suite": "twin-diff", "scenario": sc2, "differs_in": d2,
                      "sync": {k: a2[k] for k in d2}, "async": {k: b2[k] for k in d2},
                      "rerun": "./check C06 --replay <this file>"})
@@ -497,6 +548,9 @@ def pair_suite(rep, thorough):
     n_lists = 6000 if thorough else 300          # lists with repeated entries, eager on / off
     n_timed = 8000 if thorough else 400          # per-call timeout_ops x device latency (scripted time)
     n_err = 8000 if thorough else 500            # error paths: failed escalation / de-escalation / on_open, timeout armed
+    n_read = 4000 if thorough else 260           # send_and_read / send_input_and_read x expected_outputs classes x streaming devices
+    n_ansi = 4000 if thorough else 280           # escape sequences x cuts inside them
+    n_two = 2000 if thorough else 150            # two objects per platform driver, a default level of the first edited in place
     scs = list(P.corpus())
     for f in rep.findings:
         if f.get("replay"):
@@ -516,6 +570,12 @@ def pair_suite(rep, thorough):
         scs.append(P.gen_scenario(rng, family="timeouts", faulty=(rng.random() < 0.15)))
     for i in range(n_err):
         scs.append(P.gen_scenario(rng, family="errors"))
+    for i in range(n_read):
+        scs.append(P.gen_and_read_scenario(rng))
+    for i in range(n_ansi):
+        scs.append(P.gen_scenario(rng, family="ansi"))
+    for i in range(n_two):
+        scs.append(P.gen_scenario(rng, family="two_objects"))
     dist = _new_dist()
     nfail, sy = _run_pairs(rep, P, scs, dist, "", [0])
     if sy:
@@ -612,7 +672,32 @@ def shrink_pair(P, sc, a, b, d):
             if dd:
                 cur, ca, cb, cd = t, x, y, dd
     # device description: drop the outputs / dialogues / questions' extras the difference does not need
-    for key in ("outputs", "dialogs", "latency"):
+    # two-object histories: what the first object does around the edit, and the edits themselves (one must stay)
+    for key in ("ops_before", "ops_after", "edits"):
+        i = 0
+        while cur.get("first") and i < len(cur["first"].get(key) or []):
+            if key == "edits" and len(cur["first"]["edits"]) < 2:
+                break
+            t = json.loads(json.dumps(cur))
+            del t["first"][key][i]
+            dd, x, y = differs(t)
+            if dd:
+                cur, ca, cb, cd = t, x, y, dd
+            else:
+                i += 1
+    # expected_outputs entries the difference does not need
+    for j, op in enumerate(cur["ops"]):
+        i = 0
+        while len(op) > 2 and isinstance(op[2], dict) and len(cur["ops"][j][2].get("expected_outputs") or []) > 1 and \
+                i < len(cur["ops"][j][2]["expected_outputs"]):
+            t = json.loads(json.dumps(cur))
+            del t["ops"][j][2]["expected_outputs"][i]
+            dd, x, y = differs(t)
+            if dd:
+                cur, ca, cb, cd = t, x, y, dd
+            else:
+                i += 1
+    for key in ("outputs", "dialogs", "latency", "insertions"):
         for name in sorted(cur["device"].get(key) or {}):
             t = json.loads(json.dumps(cur))
             del t["device"][key][name]
@@ -828,7 +913,21 @@ def run(rep):
                 "command then raise, a config, an escalation; device healthy / hanging on a session set-up line / ignoring configure) "
                 "each followed by 1-3 of get_prompt / send_command / acquire_priv / send_configs / close / re-open; a read with nothing "
                 "pending waits 1e6 scripted seconds before Starved, so an armed timeout_ops expires in the real decorators; every failed "
-                "operation is observed as (type, message class, explicit cause types), plus transport open / closed at the end; when a twin-diff obligation breaks: focus_search = the families mapped to "
+                "operation is observed as (type, message class, explicit cause types), plus transport open / closed at the end; "
+                "+ the and_read family: send_and_read / channel.send_input_and_read x 1-3 expected_outputs entries per call drawn from "
+                "{plain text of the answer (any case), text of the answer with regex metacharacters ([confirm], (y/n), a|b, c++, $5, "
+                "1.1/1.2/1.3), real patterns that occur only as a pattern, text that occurs nowhere, strings that are not a valid "
+                "pattern} x streaming answers (ping / configuration / counters text that goes on after the expected place; half of "
+                "the devices also have lines whose answer never ends in a prompt) x chunking, followed by get_prompt / send_command "
+                "which see what was left unread; + the ansi family: escape sequences (SGR, ESC[?25h, ESC[K, OSC title ... BEL, ESC 7, "
+                "DSR; single and back to back) inside command outputs and inserted at arbitrary stream offsets (prompts, echoes) x "
+                "chunking policy esccut (cut k = 1..9 / last byte behind each ESC; the next chunk = the rest of the sequence only / "
+                "rest + plain text up to the next ESC / everything incl. further sequences) or an ordinary policy, every cut position "
+                "of ESC[0m, ESC[?25h and an OSC in the fixed corpus; + the two_objects family: per platform driver a first object "
+                "(optionally opened and used), 1-2 in-place edits of its default levels (pattern / escalate / deescalate / not_contains."
+                "append / escalate_prompt / escalate_auth / previous_priv), optionally update_privilege_levels() and more use, then a "
+                "second object constructed and used; oracle = the stacks agree AND in each stack the second object's levels equal those "
+                "of an object constructed before the edit AND its observations equal the same history without the edit; when a twin-diff obligation breaks: focus_search = the families mapped to "
                 "the changed function (c06_pairs.FN_FAMILY) on the driver kinds that reach it, up to 8 (thorough 24) extra seeds; "
                 "telnet: grammar + malformed streams, every single cut + 1-byte + random cuts, both real transports; "
                 "non-trivial = the device executed at least one line / more than one event / at least one command; "
@@ -851,6 +950,9 @@ def replay(path):
         a, b = P.run_sync(sc), P.run_async_batch([sc])[0]
         d = P.diff_obs(a, b)
         print("scenario:", json.dumps(sc))
+        for stack, o in (("sync", a), ("asyncio", b)):
+            for x in o.get("isolation") or []:
+                print(" isolation expectation fails in the %s stack: %s" % (stack, x))
         for k in d:
             print(" differs in %s:\n   sync   : %s\n   asyncio: %s" % (k, json.dumps(a[k])[:1500], json.dumps(b[k])[:1500]))
         print("property FAILS on this input" if d else "property holds on this input")
@@ -911,7 +1013,11 @@ MANIFEST = {
             "privilege escalation with a wrong / empty / missing auth_secondary against devices that re-prompt, refuse or hang, refused / "
             "ignored / unanswered de-escalation, failing on_open / on_close hooks, with timeout_ops armed — compared by exception type, "
             "message class, explicit cause chain, bytes written, cached privilege level, device mode, transport state and the outcome of "
-            "the operations / the re-open that follow), on both real Telnet "
+            "the operations / the re-open that follow; send_and_read / send_input_and_read with plain / metacharacter / pattern "
+            "expected_outputs against streaming answers, compared by where each stack stops reading; escape sequences cut at every "
+            "position by the transport, the chunk behind the cut with and without a further ESC; two objects of each platform driver in "
+            "one process, a default privilege level of the first edited in place — here the oracle is also the isolation expectation: "
+            "in EACH stack the second object's levels and observations equal those without the edit), on both real Telnet "
             "transports over scripted sockets and by two runtime probes, comparing the two stacks with each other; it is not a theorem. "
             "A broken twin-diff obligation for function F triggers a search over the scenario families that exercise F with extra seeds.",
     "note": "Trusted: Coq kernel + vm_compute; gen/gen_twins.py (inspect/ast/tokenize of the current tree; the diff hash is computed there); the "
@@ -936,7 +1042,19 @@ MANIFEST = {
             "Starved (blocks for ever). The message class of an exception is its text with quoted names / numbers / the async prefix "
             "removed, compared between the two stacks only (never with a literal); of the cause chain only explicit `raise ... from` "
             "links are compared (the implicit context of a timeout differs by construction). User hooks are a fixed set of named "
-            "functions (c06_pairs._hook_steps). Not modelled: asyncio scheduler, cancellation inside "
+            "functions (c06_pairs._hook_steps). The round-7 families are oracle-only as well: there is no Coq model of "
+            "_read_until_prompt_or_time's stop condition (expected_outputs as substrings and as one joined regex), of Channel.read's "
+            "escape-sequence hold-back / strip, or of the drivers' constructors; their sync/asyncio equality rests on the token "
+            "identity obligations of those functions plus the direct comparison of the two real stacks. Where an escape sequence "
+            "ends is decided in the harness by the ECMA-48 grammar (c06_pairs.esc_seq_len), not by scrapli's patterns; the result "
+            "texts are compared between the stacks only (whether a sequence SHOULD be stripped is not judged here). In the "
+            "two-object histories the isolation expectation (second object's privilege levels == those of an object constructed "
+            "before the edit; its observations == a control run of the same history without the edit) is checked per stack, so a "
+            "change made to both twins alike is still a failure; edits are setattr / list.append on the first object's "
+            "PrivilegeLevel objects and are undone on those same objects at the end of the run, and these histories are never "
+            "interleaved with other scenarios in the asyncio batch. read_duration is 120 real seconds in every and_read call, so "
+            "the wall-clock stop condition of _read_until_prompt_or_time never fires (a stream that neither matches nor ends is "
+            "observed as Starved = blocks for ever). Not modelled: asyncio scheduler, cancellation inside "
             "transport reads, signal/thread timeouts, real sockets. Known findings (listed, still reported): sync Telnet stops answering after 10 "
             "negotiation commands while asyncio keeps answering; a refused Telnet connection raises ScrapliConnectionNotOpened (sync) vs "
             "ScrapliConnectionError (asyncio); timeout_ops expiring inside send_and_read raises ScrapliConnectionNotOpened (sync: the "
